@@ -37,6 +37,7 @@ class Facts:
     create_species_of_first: bool = False
     mapped_species_of_first_result: bool = False
     species_skip_unset: bool = False
+    coord_with_every_variable: bool = False
     notes: list = field(default_factory=list)
 
     @property
@@ -289,6 +290,18 @@ def _extract_call_sites(cls_fn, f: Facts):
     src = _u(wd)
     if 'nc_file = single_nc_file or self._nc[fs_name]' not in src or 'group = nc_file.groups[fs_name][0]' not in src:
         raise Untranslatable('_write_data: nc_file / group are not those of the field set being written')
+    # the trajectory coordinate of the file of the field set being written is written inside the per-variable loop
+    # (that is what extends the trajectory dimension of EVERY file, also when all fields of a record are unset)
+    inner = [n for n in ast.walk(wd) if isinstance(n, ast.For) and _u(n.iter) == 'group.variables']
+    if len(inner) != 1 or _u(inner[0].body[-1]) != 'nc_file.traj_var[0][index] = index' or \
+            src.count('traj_var[0][index] = index') != 1 or not isinstance(inner[0].body[-2], ast.Expr) or \
+            '_write_to_nc_var' not in _u(inner[0].body[-2]):
+        raise Untranslatable('_write_data: the trajectory coordinate is not written after every variable, '
+                             'inside the loop over the variables of the field set\'s group')
+    outer = [n for n in ast.walk(wd) if isinstance(n, ast.For) and _u(n.iter) == 'fieldsets']
+    if len(outer) != 1 or inner[0] not in outer[0].body or any(isinstance(n, ast.Return) for n in ast.walk(wd)):
+        raise Untranslatable('_write_data: unexpected loop structure (field sets / variables) or an early return')
+    f.coord_with_every_variable = True
     if txt == 'self._write_to_nc_var(var, index, name, field, val, nc_file.species or [])':
         f.writer_gets_file_species = True
     elif txt == 'self._write_to_nc_var(var, index, name, field, val)':
@@ -404,4 +417,5 @@ def coq_text(f: Facts) -> str:
             f'     cf_modes_dim_from_enum := {_bool(f.modes_dim_from_enum)};\n'
             f'     cf_create_species_of_first_trajectory := {_bool(f.create_species_of_first)};\n'
             f'     cf_mapped_species_of_first_result := {_bool(f.mapped_species_of_first_result)};\n'
-            f'     cf_species_skip_unset_fields := {_bool(f.species_skip_unset)} |}}.\n')
+            f'     cf_species_skip_unset_fields := {_bool(f.species_skip_unset)};\n'
+            f'     cf_coordinate_written_with_every_variable := {_bool(f.coord_with_every_variable)} |}}.\n')
